@@ -1,6 +1,6 @@
 (* Lazy/LazyBaseProofs.v — PROOF file: lemmas about the source contract, element streams and the
    specification vocabulary shared by the C15 theorems. *)
-From Anydb Require Import Common.Base Lazy.LazyBase.
+From Anydb Require Import Common.Base Gen.LazyConsts Lazy.LazyBase.
 
 (* "map formula over the indices at which it is defined" *)
 Definition ovals {B} (F : N -> option B) (idx : list N) : list B :=
@@ -135,3 +135,111 @@ Qed.
 Lemma Forall_seqN (P : N -> Prop) from n :
   (forall i, from <= i < from + N.of_nat n -> P i) -> Forall P (seqN from n).
 Proof. intros H. apply Forall_forall. intros x Hx. apply H. now apply in_seqN. Qed.
+
+(* ---- indexing lemmas ------------------------------------------------------------------------ *)
+Lemma get_cons {A} (x : A) l i : get (x :: l) i = if i =? 0 then Some x else get l (i - 1).
+Proof.
+  unfold get. destruct (i =? 0) eqn:E.
+  - replace (N.to_nat i) with O by lia. reflexivity.
+  - replace (N.to_nat i) with (S (N.to_nat (i - 1))) by lia. reflexivity.
+Qed.
+Lemma get_app_l {A} (a b : list A) i : i < len a -> get (a ++ b) i = get a i.
+Proof.
+  intros H. unfold get, len in *. rewrite !nth_opt_nth_error. apply nth_error_app1. lia.
+Qed.
+Lemma get_app_r {A} (a b : list A) j : get (a ++ b) (len a + j) = get b j.
+Proof.
+  unfold get, len. rewrite !nth_opt_nth_error. rewrite nth_error_app2 by lia. f_equal. lia.
+Qed.
+Lemma get_snoc {A} (a : list A) x : get (a ++ [x]) (len a) = Some x.
+Proof. replace (len a) with (len a + 0) by lia. rewrite get_app_r. reflexivity. Qed.
+Lemma get_in {A} (l : list A) i v : get l i = Some v -> In v l.
+Proof. unfold get. rewrite nth_opt_nth_error. apply nth_error_In. Qed.
+Lemma get_seqN a k j : j < N.of_nat k -> get (seqN a k) j = Some (a + j).
+Proof.
+  revert a j; induction k as [|k IH]; intros a j H; [lia|].
+  cbn [seqN]. rewrite get_cons. destruct (j =? 0) eqn:E.
+  - f_equal. lia.
+  - rewrite IH by lia. f_equal. lia.
+Qed.
+
+(* a list of formula values over indices where the formula is defined is indexed like the index list *)
+Lemma get_ovals_total {B} (F : N -> option B) l j :
+  Forall (fun x => exists v, F x = Some v) l ->
+  get (ovals F l) j = match get l j with Some x => F x | None => None end.
+Proof.
+  intros H. revert j. induction H as [|x tl [v Hv] _ IH]; intros j.
+  - unfold get. cbn. now destruct (N.to_nat j).
+  - rewrite ovals_cons, Hv, !get_cons. destruct (j =? 0); [now rewrite Hv|apply IH].
+Qed.
+Lemma len_ovals_total {B} (F : N -> option B) l :
+  Forall (fun x => exists v, F x = Some v) l -> len (ovals F l) = len l.
+Proof.
+  induction 1 as [|x tl [v Hv] _ IH]; [reflexivity|].
+  rewrite ovals_cons, Hv, !len_cons, IH. reflexivity.
+Qed.
+
+Lemma flat_map_opt_map {B} (F : N -> option B) idx :
+  flat_map (fun o : option B => match o with Some v => [v] | None => [] end) (map F idx) = ovals F idx.
+Proof. unfold ovals. induction idx as [|i tl IH]; [reflexivity|]. cbn [map flat_map]. now rewrite IH. Qed.
+
+(* ---- Cursor and the default read_sorted_into_at over any vector whose read_into_at is the formula ---- *)
+Section CursorSpec.
+  Context {T : Type} (n : N) (F : N -> option T) (rd : N -> N -> res unit (list T)).
+  Hypothesis Fdef : forall i, i < n -> exists v, F i = Some v.
+  Hypothesis Fnone : forall i, n <= i -> F i = None.
+  Hypothesis Hrd : forall f t, rd f t = Ok (ovals F (seqN f (N.to_nat (N.min t n - f)))).
+
+  Definition cinv (c : cursor) : Prop :=
+    exists k, c_buf c = ovals F (seqN (c_start c) k) /\ c_start c + N.of_nat k <= n.
+
+  Lemma seq_defined a k : a + N.of_nat k <= n -> Forall (fun x => exists v, F x = Some v) (seqN a k).
+  Proof. intros H. apply Forall_seqN. intros i Hi. apply Fdef. lia. Qed.
+
+  Lemma cursor_get_spec c i : cinv c -> exists c', cursor_get n rd c i = Ok (c', F i) /\ cinv c'.
+  Proof.
+    intros [k [Hb Hk]]. unfold cursor_get.
+    destruct (n <=? i) eqn:E.
+    { exists c. rewrite Fnone by lia. split; [reflexivity|exists k; auto]. }
+    pose proof (seq_defined _ _ Hk) as Hdef.
+    assert (Hlen : len (c_buf c) = N.of_nat k).
+    { rewrite Hb, len_ovals_total by exact Hdef. unfold len. now rewrite seqN_length. }
+    rewrite Hlen.
+    destruct ((c_start c <=? i) && (i <? c_start c + N.of_nat k)) eqn:Ein.
+    - rewrite getb_get, Hb, get_ovals_total by exact Hdef.
+      rewrite get_seqN by lia. replace (c_start c + (i - c_start c)) with i by lia.
+      destruct (Fdef i) as [v Hv]; [lia|]. rewrite Hv. exists c. split; [reflexivity|exists k; auto].
+    - set (aligned := i / READ_CHUNK_SIZE * READ_CHUNK_SIZE).
+      set (e := N.min (aligned + READ_CHUNK_SIZE) n).
+      assert (Hal : aligned <= i /\ i < aligned + READ_CHUNK_SIZE).
+      { unfold aligned, READ_CHUNK_SIZE. lia. }
+      rewrite Hrd. replace (N.min e n) with e by (unfold e; lia).
+      set (k' := N.to_nat (e - aligned)).
+      assert (Hk' : aligned + N.of_nat k' <= n /\ i - aligned < N.of_nat k') by (unfold k', e; lia).
+      pose proof (seq_defined aligned k' (proj1 Hk')) as Hdef'.
+      assert (Hg : getb (ovals F (seqN aligned k')) (i - aligned) = F i).
+      { rewrite getb_get, get_ovals_total by exact Hdef'. rewrite get_seqN by lia. f_equal. lia. }
+      destruct (Fdef i) as [v Hv]; [lia|].
+      destruct (ovals F (seqN aligned k')) as [|b0 bt] eqn:Eb.
+      + pose proof (len_ovals_total F _ Hdef') as Hl. rewrite Eb in Hl.
+        unfold len in Hl. rewrite seqN_length in Hl. cbn [length] in Hl. lia.
+      + rewrite Hg, Hv. eexists. split; [reflexivity|].
+        exists k'. cbn [c_start c_buf]. split; [now rewrite Eb|lia].
+  Qed.
+
+  Lemma cursor_gets_spec idx c : cinv c -> cursor_gets n rd c idx = Ok (map F idx).
+  Proof.
+    revert c; induction idx as [|i tl IH]; intros c Hc; [reflexivity|].
+    cbn [cursor_gets map]. destruct (cursor_get_spec c i Hc) as [c' [Hg Hc']].
+    rewrite Hg, (IH c' Hc'). reflexivity.
+  Qed.
+
+  Lemma cinv_new : cinv cursor_new.
+  Proof using. clear Hrd Fnone Fdef rd. exists O. cbn. split; [reflexivity|lia]. Qed.
+
+  (* any index list, in any order *)
+  Lemma default_read_sorted_spec idx : default_read_sorted n rd idx = Ok (ovals F idx).
+  Proof.
+    unfold default_read_sorted. rewrite (cursor_gets_spec idx _ cinv_new). now rewrite flat_map_opt_map.
+  Qed.
+End CursorSpec.
